@@ -630,3 +630,17 @@ package factstore
 //@   ensures seen[tf.Atom.Hash()]
 //@   ensures forall h uint64 :: old(seen[h]) ==> seen[h]
 
+
+// ---- C06: the multi-indexed store lists the predicates of its zero-arity facts too ----------------------------------
+// Zero-arity facts live in a map of their own (constants); a predicate that has facts only there is listed like any
+// other, so that GetAllFacts and Merge reach it.
+//@ func (s MultiIndexedInMemoryStore) ListPredicates()
+//@   modifies nothing
+//@   ensures forall p ast.PredicateSym :: p in s.constants ==> (exists i int :: 0 <= i && i < len(result) && result[i] == p)
+//@   ensures forall p ast.PredicateSym :: p in s.shardsByPredicate ==> (exists i int :: 0 <= i && i < len(result) && result[i] == p)
+//@   ensures forall i int :: 0 <= i && i < len(result) ==> result[i] in s.shardsByPredicate || result[i] in s.constants
+//@   loop 1 invariant forall p ast.PredicateSym :: p in seen ==> (exists i int :: 0 <= i && i < len(r) && r[i] == p)
+//@   loop 1 invariant forall i int :: 0 <= i && i < len(r) ==> r[i] in s.constants
+//@   loop 2 invariant forall p ast.PredicateSym :: p in s.constants ==> (exists i int :: 0 <= i && i < len(r) && r[i] == p)
+//@   loop 2 invariant forall p ast.PredicateSym :: p in seen2 ==> (exists i int :: 0 <= i && i < len(r) && r[i] == p)
+//@   loop 2 invariant forall i int :: 0 <= i && i < len(r) ==> r[i] in s.shardsByPredicate || r[i] in s.constants
